@@ -179,18 +179,28 @@ func propKeys(t *rapid.T) {
 		if !bytes.Equal(lp.UncompressedBytes(), p.Uncompressed()) {
 			t.Fatal("NewSchnorrPublicKeyFromPoint modified its argument")
 		}
+		lp.Add(lp, secp256k1.NewGeneratorPoint()) // the caller goes on using its point
 	case "from-point-derived":
 		q := secp256k1.NewIdentityPoint().Add(lib.Pt(p), secp256k1.NewGeneratorPoint())
 		q.Subtract(q, secp256k1.NewGeneratorPoint())
 		k, err = bitcoin.NewSchnorrPublicKeyFromPoint(q)
+		q.Double(q)
 	case "from-ecdsa-pub":
 		k = bitcoin.NewSchnorrPublicKeyFromECDSA(lib.PubKey(p))
 	default:
-		k, err = bitcoin.NewSchnorrPublicKey(ref.B32(p.X))
+		raw := ref.B32(p.X)
+		k, err = bitcoin.NewSchnorrPublicKey(raw)
+		for i := range raw { // the caller reuses its buffer
+			raw[i] = 0
+		}
 	}
 	if err != nil || k == nil {
 		t.Fatalf("route %s failed for %v: %v", route, p, err)
 	}
+	if b := k.Bytes(); len(b) > 0 { // ... and overwrites what it was handed
+		b[0] ^= 0xff
+	}
+	k.Point().Identity()
 	if !bytes.Equal(k.Bytes(), ref.B32(p.X)) {
 		t.Fatalf("Bytes() = %x, want %x", k.Bytes(), ref.B32(p.X))
 	}
